@@ -19,9 +19,10 @@ TEXT = {
     "C01": ("Seeded search over histories x restart faults (export+load over every channel, close/drop+reopen, union, "
             "push, chdir, stale destinations) x 7 hash strategies x sizings; every added key is re-queried after every "
             "step and the exported bits must be monotone.  Sampling, not proof.", "4 C01"),
-    "C02": ("THIN: seeded histories against a Counter model with an adversarial (range-squeezed) hash strategy; there is no "
-            "fault or schedule to inject for this property, the simulator contributes generator, hash seam, model, replay "
-            "and shrinking.", "4 C02"),
+    "C02": ("THIN: seeded histories against a Counter model with an adversarial (range-squeezed) hash strategy; the only "
+            "injected events are a second live sketch that took the subject's counts by join and is then updated on its "
+            "own, and a query-mode round trip; half of the runs are plain histories.  The simulator contributes "
+            "generator, hash seam, model, replay and shrinking.", "4 C02"),
     "C03": ("Seeded search over eviction schedules: every random.choice/randint of both cuckoo filters is answered by the "
             "simulator (4 strategies, explicit tapes, fan-out of the same insertion under other tapes from a deep-copied "
             "pre-state), with table-full and failed-expansion as the faults; fingerprint-level model re-queried after "
@@ -36,16 +37,19 @@ TEXT = {
             "writer, both written from the description, must agree with the library on every exported file / answer of "
             "seeded histories.  No fault injected; exploration.", "4 C06"),
     "C08": ("Seeded eviction schedules (counting cuckoo) and collision-forcing hash strategies (counting Bloom) against "
-            "exact count models, LIFO bracket checks on exported bytes.", "4 C08"),
+            "exact count models, LIFO bracket checks on exported bytes; eviction chains up to 2500 swaps, prior-life "
+            "objects at re-used addresses and look-up bursts.", "4 C08"),
     "C09": ("Seeded histories with restart faults; per-sub-filter counts parsed from the exported stream by layout after "
-            "every step.", "4 C09"),
-    "C10": ("THIN: seeded histories (add / push / pop) with a hash seam; no restart (the statement excludes it).", "4 C10"),
+            "every step; capacities 1..8 and, in 1 run of 40, 256..5000 with bulk fills.", "4 C09"),
+    "C10": ("THIN: seeded histories (add / push / pop, bursts, queues of up to 300 filters) with a hash seam; no restart "
+            "(the statement excludes it).", "4 C10"),
     "C11": ("Fault enumeration: histories are sampled from the seed, but within every add / close / drop / export of a "
             "history EVERY library line event is taken as a crash point and the file image (fresh descriptor) is judged "
             "against the three rules; kill+restart continues runs from crash images; a seeded sample of crash points is "
             "cross-checked against a real fork+SIGKILL.", "4 C11"),
     "C12": ("Seeded two-stream histories; union / join result compared cell for cell with the single-stream structure, "
-            "on-disk operands in either position.", "4 C12"),
+            "on-disk operands in either position, per-operand hash closures, user subclasses, join into a fresh sketch; "
+            "after every combine the result is mutated and both operands are compared with their snapshots.", "4 C12"),
     "C13": ("Seeded pairs in drawn relations (compatible, identical, different est / rate / hash, foreign types); AND / "
             "popcount oracles computed by the harness; operand immutability includes the backing file.", "4 C13"),
     "C14": ("Counter oracle after every step of every world's history: all eviction schedules and fan-out branches of "
@@ -54,9 +58,11 @@ TEXT = {
     "C15": ("Same schedule machinery as C03; structural invariants of the exposed bucket table checked after every call, "
             "fan-out branch, raised error and load.", "4 C15"),
     "C16": ("Seeded short histories over amounts around 2^31, 2^32, 2^63, 2^64 with colliding positions; big-int cell "
-            "model with the stated pinning compared with the exported cells after every step.", "4 C16"),
-    "C17": ("THIN: seeded histories over a key universe larger than the table, colliding widths; the oracle is the value "
-            "each add/remove returned.", "4 C17"),
+            "model with the stated pinning compared with the exported cells after every step; returned values compared "
+            "with check() right afterwards; the second operand of a join stays alive and must never change.", "4 C16"),
+    "C17": ("THIN: seeded histories over a key universe larger than the table (tables of 1..10 and 512..600 entries), "
+            "colliding widths, a prior-life object at the subject's address; the oracle is the value each add/remove "
+            "returned.", "4 C17"),
     "C19": ("State capture / read-only batch / state compare at seeded points of every world's history, incl. exports into "
             "a sink that fails at a seeded write (sink_error) and non-receiver roles; clear() vs a fresh twin over a "
             "common suffix.", "4 C19"),
@@ -73,6 +79,10 @@ TECH = {
     "C04": "deterministic simulation: seeded histories vs set model under a deterministic step budget (bounded termination)",
     "C06": "deterministic simulation of two parties over the storage channel (independent C reader + reference writer)",
     "C19": "deterministic simulation: read-only batches incl. failing export sinks; state compared after each call",
+    "C12": "deterministic simulation: seeded two-stream histories vs single-stream reference; operand aliasing, prior-life and per-object hash-closure faults",
+    "C13": "deterministic simulation: seeded operand pairs in drawn relations vs AND/popcount oracle; prior-life (id() reuse) and per-object hash-closure faults",
+    "C16": "deterministic simulation: seeded limit-crossing histories vs big-int cell model; restart faults, live second operand",
+    "C09": "deterministic simulation: seeded histories with restart faults vs growth model read from the exported stream",
 }
 
 NA = [
@@ -101,7 +111,9 @@ def main():
             "level_claimed": {"category": spec.level, "text": text, "design_ref": "DESIGN.md section " + ref},
             "level_note": "; ".join(spec.assumptions),
             "technique": TECH.get(p, "deterministic simulation: seeded histories vs reference model, hash-strategy seam"
-                                     + (" (thin: no fault kind applies)" if "THIN" in spec.rule else "")),
+                                     + (" (thin: object-level events only - second live object, prior-life object, "
+                                        "query-mode round trip; no storage or schedule fault applies)"
+                                        if "THIN" in spec.rule else "")),
         })
     man = {
         "version": 1,
